@@ -383,6 +383,43 @@ func c17StuckKinds(conc bool, variant int) pxScenario {
 		Tags: []string{"stuck-kinds", fmt.Sprintf("overflow-with-live-traffic-in-one-step=%v", conc)}}
 }
 
+// the context ends while a destination has QUEUED envelopes and its write loop sits in its select: (a) the proxy's
+// context is cancelled from inside the forwarding loop, while it forwards the first of k envelopes to peer 3 whose
+// transport has just been set to block; (b) the connection's own context ends because its Read fails in the same step.
+// Whatever the write loop's select picks, it must be gone when the step has settled (the blocked Write honours its
+// context), nothing may happen while 1 s and 6 s of virtual time go by, and unblocking the transport later delivers
+// nothing.
+func c17CancelQueued(k int, own bool, variant int) pxScenario {
+	b := &pxBuilder{tok: 100}
+	b.add(att(1)...)
+	b.add(att(2)...)
+	b.add(att(3)...)
+	b.add(b.send(1, 2))
+	g := []PAct{{Op: "setw", N: 3, M: "block"}}
+	if own {
+		g = append(g, PAct{Op: "failread", N: 3})
+	}
+	for i := 0; i < k; i++ {
+		a := b.send(int64(1+i%2), 3)
+		if i == 0 && !own {
+			a.CancelOn = true
+		}
+		g = append(g, a)
+	}
+	b.add(g...)
+	b.add(PAct{Op: "tick", V: 1000})
+	b.add(PAct{Op: "setw", N: 3, M: "ok"})
+	b.add(PAct{Op: "tick", V: 6000})
+	b.add(b.send(1, 2))
+	tags := []string{"cancel-queued", fmt.Sprintf("queued=%d", k)}
+	if own {
+		tags = append(tags, "context=the-connection's-own")
+	} else {
+		tags = append(tags, "concurrent-cancel", "cancel-in-forwarding-loop=true", "with=queued")
+	}
+	return pxScenario{Icp: 0, ByRef: variant%2 == 0, Steps: b.steps, Tags: tags}
+}
+
 // the dial-error role with every error value (and the name dialled again)
 func c17DialErr(ek int) pxScenario {
 	b := &pxBuilder{tok: 100}
@@ -520,6 +557,16 @@ func c17Scenarios() []pxScenario {
 			for rep := 0; rep < 2; rep++ { // the unheld variant depends on the schedule: repeated
 				out = append(out, c17HeldLoop(order, ek, true))
 			}
+		}
+	}
+	for _, k := range []int{1, 5, 16} {
+		for rep := 0; rep < 6; rep++ { // which case the write loop's select picks is the runtime's: repeated
+			out = append(out, c17CancelQueued(k, false, rep))
+		}
+	}
+	for _, k := range []int{1, 2} {
+		for rep := 0; rep < 6; rep++ {
+			out = append(out, c17CancelQueued(k, true, rep))
 		}
 	}
 	for _, conc := range []bool{false, true} {
